@@ -47,6 +47,9 @@
 //     appended to the trace as `("set resp.Compress", ["true"])`; values read
 //     from abstract objects are re-read (fresh parameters) after any opaque
 //     call or such a write;
+//   - a result (or assignment target) of abstract pointer or interface type is
+//     `AbsPtr` too: nil is `false`, a concrete value converted to the interface
+//     is `true` (which implementation it is, is not modelled);
 //   - a field of abstract pointer type of a translated struct
 //     (`srvReqInfo.Userinfo`) is not part of the Lean structure: reading it is
 //     an opaque `AbsPtr` parameter (its nil-ness);
@@ -546,6 +549,19 @@ func implementsError(t types.Type) bool {
 // exprAs translates e for a context of type to (implicit conversion of a
 // concrete error value to the error interface).
 func (c *fctx) exprAs(e ast.Expr, to types.Type) ex {
+	if to != nil && c.t.isAbstract(to) && c.t.valType(to) == "AbsPtr" {
+		if id, ok := e.(*ast.Ident); ok && id.Name == "nil" {
+			return ex{code: "false"}
+		}
+		if _, toIface := to.Underlying().(*types.Interface); toIface && !types.IsInterface(c.typeOf(e)) {
+			// a concrete value stored in an interface is a non-nil interface
+			x := c.expr(e)
+			if strings.Contains(x.code, "«call:") {
+				fail("traced call inside a value converted to an abstract interface: %s", c.show(e))
+			}
+			return c.bindN([]ex{x}, func([]string) string { return "true" })
+		}
+	}
 	if to != nil && isError(to) {
 		if id, ok := e.(*ast.Ident); ok && id.Name == "nil" {
 			return ex{code: "none"}
@@ -1985,6 +2001,9 @@ func (t *translator) translate(sp TrFunc) (fo *funcOut) {
 			c.named = true
 		}
 		lt := t.leanType(v.Type())
+		if lt == "" && t.valType(v.Type()) == "AbsPtr" {
+			lt = "AbsPtr" // an abstract pointer / interface result: its nil-ness
+		}
 		if lt == "" {
 			fail("result type %s", v.Type())
 		}
@@ -1996,7 +2015,7 @@ func (t *translator) translate(sp TrFunc) (fo *funcOut) {
 	pre := ""
 	if c.named {
 		for _, v := range c.results {
-			pre += fmt.Sprintf("let %s : %s := %s\n", leanIdent(v.Name()), t.leanType(v.Type()), c.zero(v.Type()))
+			pre += fmt.Sprintf("let %s : %s := %s\n", leanIdent(v.Name()), t.valType(v.Type()), c.zero(v.Type()))
 		}
 	}
 	if c.trace {
